@@ -327,14 +327,11 @@ def run(ctx):
         if flds and len(flds) == len(parts):
             d = dict(zip(flds, parts))
             BASE = d.get("base_rate_apr")
-            FI = "add(add(get_fees(p1).group_fee_rate,get_fees(p1).insurance_fee_rate),get_fees(p1).protocol_fee_rate)"
-            FF = "add(add(get_fees(p1).group_fee_fixed,get_fees(p1).insurance_fee_fixed),get_fees(p1).protocol_fee_fixed)"
-            wb = "checked_add(%s,checked_mul(%s,%s))" % tuple([FF] + sorted(["checked_add(%s,%s)" % tuple(sorted([ONE, FI])), BASE]))
-            sb = split_call(d.get("borrowing_rate_apr", ""))
-            gotb = "%s(%s)" % (sb[0], ",".join(sorted(sb[1]))) if sb else ""
-            swb = split_call(wb)
-            wb = "%s(%s)" % (swb[0], ",".join(sorted(swb[1])))
-            okc = BASE == "phi(interest_rate_curve(p1,p2)|interest_rate_multipoint_curve(p1,p2))" and d.get("lending_rate_apr") == "checked_mul(%s)" % ",".join(sorted(["p2", BASE])) and gotb == wb
+            G = "get_fees(p1)."
+            FI = mk_call("add", [G + "group_fee_rate", G + "insurance_fee_rate", G + "protocol_fee_rate"])
+            FF = mk_call("add", [G + "group_fee_fixed", G + "insurance_fee_fixed", G + "protocol_fee_fixed"])
+            wb = mk_call("checked_add", [FF, mk_call("checked_mul", [mk_call("checked_add", [ONE, FI]), BASE or "?"])])
+            okc = BASE == "phi(interest_rate_curve(p1,p2)|interest_rate_multipoint_curve(p1,p2))" and d.get("lending_rate_apr") == mk_call("checked_mul", ["p2", BASE]) and d.get("borrowing_rate_apr") == wb
     ctx.inst("C18.R5", "rates/lending-borrowing", okc, "base = curve(ur); lending = base * ur; borrowing = base * (1 + sum of rate fees) + sum of fixed fees (checked)", parts[:3], calc.loc(calc.raw["span"]))
     g = prog.find_fns({"name": "calc_fee_rate", "crate": "marginfi"})
     ctx.inst("C18.R5", "rates/calc_fee_rate", len(g) == 1 and set(split_call("x(" + re.sub(r"^phi\((.*)\)$", r"\1", ret_tree(prog, g[0])).replace("|", ",") + ")")[1]) == {"Option::Some{p3}", "checked_add(checked_mul(p1,p2),p3)"},
